@@ -1,1 +1,12 @@
+(* C07 — Graceful shutdown finishes in-flight requests and stops accepting.
+   Statements only; proofs in server/Proofs.v.  Quantification: every configuration and every list
+   of environment events of any length, i.e. every position of the signal relative to accept,
+   protocol detection, request head, body, handler, response, for any number of connections.
+   Hypothesis h2_preface_done: an HTTP/2-only server meets no client that never completes the
+   HTTP/2 preface — that case is the known finding D15 (hyper keeps such a connection open). *)
 From HD Require Import common.Base server.Model server.Spec server.Proofs.
+
+Theorem c07_monitor : forall g evs, h2_preface_done g evs -> mon_C07 (trace (run g evs)) = true.
+Proof. exact model_mon_C07. Qed.
+Check c07_monitor : forall g evs, h2_preface_done g evs -> mon_C07 (trace (run g evs)) = true.
+Print Assumptions c07_monitor.
